@@ -110,6 +110,13 @@ func merge[EntityT entity.Interface](def Definition, wrapper func(e *Entity) Ent
 			errors.Wrapf(err, "remote %s data is invalid", def.Typename).Error())
 	}
 
+	// The name of the ref has to match the content, otherwise the entity would be stored and
+	// later looked up under an id that is not its own.
+	if remoteEntity.Id() != id {
+		return entity.NewMergeInvalidStatus(id,
+			fmt.Sprintf("remote %s data doesn't match the id of its reference", def.Typename))
+	}
+
 	localRef := fmt.Sprintf("refs/%s/%s", def.Namespace, id.String())
 
 	// SCENARIO 1
